@@ -37,7 +37,7 @@ def concretise(abstract_ops, cast_name):
 
 
 DOC_IDS = ["srt1", "srt2", "vtt1", "vtt2", "dfxp1", "dfxp2", "dfxp_px", "sami1", "sami4", "mdvd1", "mdvd2",
-           "scc1", "scc2", "scc3", "scc_long", "scc_left", "scc_badtc", "dfxp_none", "dfxp_ta", "sami_ta", "vtt_bad", "srt_none", "dfxp_sloppy", "dfxp_plang", "scc_roll"]
+           "scc1", "scc2", "scc3", "scc_long", "scc_left", "scc_badtc", "dfxp_none", "dfxp_ta", "sami_ta", "vtt_bad", "srt_none", "dfxp_sloppy", "dfxp_plang", "scc_roll", "scc_midpunct", "dfxp_fr25"]
 
 
 def random_history(rng, steps, write_bias):
@@ -61,8 +61,11 @@ def random_history(rng, steps, write_bias):
         elif r < (0.85 if write_bias else 0.6):
             kind = rng.choice(list(session.WRITER_CONFIGS))
             opts = rng.choice(session.WRITER_CONFIGS[kind])
-            ops.append({"op": "write", "writer": "w%d" % rng.randrange(2), "kind": kind, "opts": opts,
-                        "set": rng.choice(live), "fresh": rng.random() < 0.3})
+            w = {"op": "write", "writer": "w%d" % rng.randrange(2), "kind": kind, "opts": opts,
+                 "set": rng.choice(live), "fresh": rng.random() < 0.3}
+            if kind in session.WRITE_ARGS and rng.random() < 0.3:
+                w["args"] = rng.choice(session.WRITE_ARGS[kind])
+            ops.append(w)
         elif r < 0.95:
             ops.append({"op": "edit", "set": rng.choice(live), "edit": rng.choice(session.EDITS)})
         elif len(live) > 1:
